@@ -270,6 +270,9 @@ class Interp:
         return self.native_call(f, args, kwargs)
 
     def native_call(self, f, args, kwargs):
+        slf = getattr(f, "__self__", None)
+        if isinstance(slf, list) and getattr(f, "__name__", "") == "sort" and any(isinstance(x, SV) for x in slf):
+            return self.sort_network(slf, kwargs)
         if any(contains_sym(a) for a in args) or any(contains_sym(a) for a in kwargs.values()):
             if not _transparent(f):
                 raise Unsupported(f"native call {_fname(f)} with symbolic argument has no model")
@@ -283,6 +286,23 @@ class Interp:
             raise
         except Exception as e:  # exception of the program under analysis, raised in native code
             raise ProgExc(e, site=f"native {_fname(f)}")
+
+    def sort_network(self, lst, kwargs):
+        """list.sort() on a short list of symbolic numbers: explicit compare-exchange network (bubble)."""
+        if kwargs.get("key") is not None or len(lst) > 8:
+            raise Unsupported("list.sort with key / more than 8 symbolic elements")
+        self.barrier(lst, "list.sort")
+        n = len(lst)
+        rev = bool(kwargs.get("reverse", False))
+        for i in range(n):
+            for j in range(n - 1 - i):
+                a, b = lst[j], lst[j + 1]
+                c = self.compare(ast.Gt() if not rev else ast.Lt(), a, b)
+                if isinstance(c, SV):
+                    lst[j], lst[j + 1] = mk_ite(c.t, b, a), mk_ite(c.t, a, b)
+                elif c:
+                    lst[j], lst[j + 1] = b, a
+        return None
 
     def instantiate(self, cls, args, kwargs):
         m = self.models.get(cls)
